@@ -6,6 +6,7 @@ mod s_topology;
 mod s_matrix;
 mod gen;
 mod s_perceive;
+mod s_ff;
 
 fn main() {
     let args: Vec<String> = std::env::args().collect();
@@ -33,6 +34,7 @@ fn main() {
         "topology" => s_topology::run(&mut out, seed, &tier),
         "matrix" => s_matrix::run(&mut out, seed, &tier),
         "perceive" => s_perceive::run(&mut out, seed, &tier),
+        "ff" => s_ff::run(&mut out, seed, &tier),
         other => { eprintln!("unknown stream {}", other); std::process::exit(2); }
     }
     let _ = rest;
